@@ -1,6 +1,7 @@
 package c14
 
 import (
+	"context"
 	"errors"
 	"fmt"
 	"github.com/go-kid/ioc/container/support"
@@ -28,7 +29,21 @@ type Closer struct {
 	calls int32
 	done  int32
 	fail  bool
+	temp  bool // the failure says it is temporary (a deadline, an interrupted call): still one call per Close
 }
+
+// tempErr is an error of the retry-able kind (Temporary() / Timeout() true), like context.DeadlineExceeded.
+type tempErr struct{}
+
+func (tempErr) Error() string   { return "closer failed: deadline exceeded" }
+func (tempErr) Temporary() bool { return true }
+func (tempErr) Timeout() bool   { return true }
+
+// PrimaryCloser is a closer that is also the Primary implementation of whatever it implements (several of them in
+// one application: a primary store, a primary cache...).
+type PrimaryCloser struct{ Closer }
+
+func (*PrimaryCloser) Primary() {}
 
 func (c *Closer) Naming() string { return c.name }
 func (c *Closer) Close() error {
@@ -36,6 +51,12 @@ func (c *Closer) Close() error {
 	<-c.gate
 	atomic.AddInt32(&c.done, 1)
 	if c.fail {
+		if c.temp {
+			if c.name[len(c.name)-1]%2 == 0 {
+				return tempErr{}
+			}
+			return fmt.Errorf("closing %s: %w", c.name, context.DeadlineExceeded)
+		}
 		return errors.New("closer failed")
 	}
 	return nil
@@ -130,10 +151,19 @@ func TestClose(t *testing.T) {
 			cs[i] = c
 			if c.fail {
 				failing++
+				c.temp = rapid.IntRange(0, 2).Draw(t, "temporary") == 0
+			}
+			if rapid.IntRange(0, 4).Draw(t, "primary") == 0 {
+				pc := &PrimaryCloser{}
+				pc.name, pc.gate, pc.fail, pc.temp = c.name, c.gate, c.fail, c.temp
+				cs[i] = &pc.Closer
+				comps = append(comps, pc)
+				continue
 			}
 			if k := rapid.IntRange(0, 5).Draw(t, "appref"); k == 0 {
 				ac := &AppRefCloser{}
 				ac.name, ac.gate, ac.fail = c.name, c.gate, c.fail
+				ac.temp = c.temp
 				cs[i] = &ac.Closer
 				comps = append(comps, ac)
 				continue
@@ -141,6 +171,7 @@ func TestClose(t *testing.T) {
 			if i == 0 && rapid.IntRange(0, 2).Draw(t, "collector") == 0 {
 				cc := &CollectorCloser{}
 				cc.name, cc.gate, cc.fail = "a-collector", c.gate, c.fail // sorts before github.com/go-kid/ioc/app/App
+				cc.temp = c.temp
 				cs[i] = &cc.Closer
 				comps = append(comps, cc)
 				continue
@@ -153,6 +184,7 @@ func TestClose(t *testing.T) {
 			if rapid.IntRange(0, 5).Draw(t, "multirole") == 0 {
 				mc := &MultiCloser{}
 				mc.name, mc.gate, mc.fail = c.name, c.gate, c.fail
+				mc.temp = c.temp
 				cs[i] = &mc.Closer
 				comps = append(comps, mc)
 				continue
@@ -162,6 +194,7 @@ func TestClose(t *testing.T) {
 				comps = append(comps, &LazyCloser{Closer: Closer{}})
 				lc := comps[len(comps)-1].(*LazyCloser)
 				lc.name, lc.gate, lc.fail = c.name, c.gate, c.fail
+				lc.temp = c.temp
 				cs[i] = &lc.Closer
 			} else {
 				comps = append(comps, c)
